@@ -1,35 +1,19 @@
 (* C07 property theorems only. *)
 From Coq Require Import List NArith Bool String Ascii.
-From V Require Import lib.Verdict C07.Model C07.Proofs C07.ProofsScope C07.ProofsPaths.
+From V Require Import lib.Verdict C07.Model C07.Proofs C07.ProofsScope C07.ProofsPaths C07.ProofsVS C07.ProofsComplete C07.ProofsDR.
 Import ListNotations.
 Open Scope string_scope.
 Open Scope list_scope.
 
-(* ---- no leak.  With the same-namespace visibility check in collectImportedServices (f_k3_fixed, the
-   proposed repair of K3) every service of every computed scope - any Sidecar, listener, host list,
-   VirtualService set, feature-flag setting and tie-break choice - is a (port-trimmed or port-merged)
-   copy of a registry service that IsServiceVisible to the proxy namespace. *)
-Theorem C07_no_leak : forall m svcs vss scs cfg labels hint s, f_k3_fixed m = true ->
+(* ---- no leak.  Every service of every computed scope - any Sidecar (selector, root-namespace
+   default, none), listener, host list, VirtualService set, feature-flag setting and tie-break choice -
+   is a (port-trimmed or port-merged) copy of a registry service that IsServiceVisible to the proxy
+   namespace.  (Holds since the K3 repair, /repo cba5e9c.) *)
+Theorem C07_no_leak : forall m svcs vss scs cfg labels hint s,
   In s (proxy_scope m svcs vss scs cfg labels hint) ->
   exists s0, In s0 svcs /\ core s = core s0 /\ is_visible m s0 cfg = true.
-Proof. exact proxy_no_leak_fixed. Qed.
+Proof. exact proxy_no_leak. Qed.
 Print Assumptions C07_no_leak.
-
-(* The code as it is (f_k3_fixed = false) violates the statement: K3. *)
-Theorem C07_no_leak_refuted :
-  exists m svcs vss cfg ls hint s,
-    In s (sidecar_scope m svcs vss cfg ls hint) /\ real_ns cfg = true /\
-    forallb (wf_service m) svcs = true /\
-    ~ (exists s0, In s0 svcs /\ core s = core s0 /\ is_visible m s0 cfg = true).
-Proof. exact no_leak_refuted. Qed.
-Print Assumptions C07_no_leak_refuted.
-
-(* What holds of the code as it is: an invisible service in a scope is one of the proxy's own namespace. *)
-Theorem C07_no_leak_partial : forall m svcs vss cfg ls hint s,
-  In s (sidecar_scope m svcs vss cfg ls hint) ->
-  exists s0, In s0 svcs /\ core s = core s0 /\ (is_visible m s0 cfg = true \/ s_ns s0 = cfg).
-Proof. exact no_leak_partial. Qed.
-Print Assumptions C07_no_leak_partial.
 
 (* Gateways / waypoints (DefaultSidecarScopeForGateway): visible services only. *)
 Theorem C07_gateway_no_leak : forall m svcs cfg s,
@@ -78,6 +62,29 @@ Proof.
 Qed.
 Print Assumptions C07_hostname_index_sound.
 
+(* ---- completeness.  "A visible service matched by a port-unrestricted, non-excluded egress host is
+   delivered (some service with its hostname is in the scope)".  False at full strength on the
+   exact-host fast path when an older, invisible service holds the (hostname, namespace) index entry;
+   proved for every listener that takes the scan path. *)
+Theorem C07_complete_refuted :
+  let m := mkMesh None None None false "rootns" true true in
+  let l := mkL ["ns1/a.com"] 0 false in
+  let s0 := mkSvc "a.com" "ns1" Ext ["*"] VPublic [80%N] 2 "s01" 0 in
+  In s0 cf_svcs /\ is_visible m s0 "ns3" = true /\ forallb (wf_service m) cf_svcs = true /\
+  import_one (fst (parse_hosts "ns3" (l_hosts l))) l s0 <> None /\
+  sidecar_scope m cf_svcs [] "ns3" [l] [] = [] /\
+  map s_name (sidecar_scope m cf_svcs [] "ns3" [mkL ["ns1/a.com"; "zz-none/*"] 0 false] []) = ["s01"].
+Proof. exact complete_fast_refuted. Qed.
+Print Assumptions C07_complete_refuted.
+
+Theorem C07_complete_partial : forall m svcs vss cfg ls hint l s0,
+  In l (egress_or_default ls) -> snd (parse_hosts cfg (l_hosts l)) = false ->
+  In s0 svcs -> is_visible m s0 cfg = true -> wf_service m s0 = true -> real_ns cfg = true ->
+  import_one (fst (parse_hosts cfg (l_hosts l))) l s0 <> None ->
+  exists s, In s (sidecar_scope m svcs vss cfg ls hint) /\ s_host s = s_host s0.
+Proof. exact complete_scan. Qed.
+Print Assumptions C07_complete_partial.
+
 (* ---- fast path versus scan path.  Refuted at full strength (two witnesses, both run against the
    real code by the harness); what holds for all inputs: fast-path candidates are scan-path candidates. *)
 Theorem C07_paths_agree_refuted :
@@ -94,6 +101,27 @@ Theorem C07_paths_agree_partial : forall m svcs cfg hb s,
   In s (services_exported_to_ns m (sort_services svcs) cfg).
 Proof. exact fast_candidates_in_scan. Qed.
 Print Assumptions C07_paths_agree_partial.
+
+(* ---- rule visibility (VirtualService part): every VirtualService attached to any egress listener of
+   any scope is exported to the proxy namespace (exportTo with "." resolved, mesh default, "~", mesh gateway). *)
+Theorem C07_vs_rule_visibility : forall m svcs vss cfg ls w v,
+  real_ns cfg = true -> forallb (fun v => real_ns (v_ns v)) vss = true ->
+  In w (scope_wrappers m svcs vss cfg ls) -> In v (w_vs w) ->
+  In v vss /\ vs_visible_spec m cfg v = true.
+Proof. exact vs_rule_visibility. Qed.
+Print Assumptions C07_vs_rule_visibility.
+
+(* ---- rule visibility (DestinationRule part): every DestinationRule merged into any consolidated rule
+   that PushContext.destinationRule returns for (proxy namespace, service) is exported to the proxy
+   namespace - through the proxy-namespace, service-namespace and root-namespace tiers and through
+   exportTo-aware merging.  The mesh default is unset, "*" or "." (the only values the code honours). *)
+Theorem C07_dr_rule_visibility : forall m,
+  mem "*" (default_of (m_dr_default m)) || mem "." (default_of (m_dr_default m)) = true ->
+  forall drs p sn sh x nm,
+  In x (destination_rule m drs p sn sh) -> In nm (md_from x) ->
+  exists d, In d drs /\ nm_of d = nm /\ dr_visible_spec m d p = true.
+Proof. exact dr_rule_visibility. Qed.
+Print Assumptions C07_dr_rule_visibility.
 
 (* ---- hostname algebra (host.Name.SubsetOf / Matches on real strings) *)
 Theorem C07_subset_refl : forall h, subset_of h h = true.
@@ -119,13 +147,13 @@ Print Assumptions C07_exact_names.
 
 (* non-vacuity: the hypotheses are satisfiable and scopes are not empty *)
 Example C07_nonvacuous :
-  let m := mkMesh None None None false "rootns" true true true in
+  let m := mkMesh None None None false "rootns" true true in
   let svcs := [mkSvc "a.com" "ns2" Ext ["ns1"] VPublic [80%N] 1 "s00" 0;
                mkSvc "b.a.com" "ns2" Ext ["."] VPublic [80%N] 2 "s01" 0] in
   map s_name (proxy_scope m svcs [] [] "ns1" [] []) = ["s00"] /\
   forallb (wf_service m) svcs = true /\ real_ns "ns1" = true.
 Proof. vm_compute. repeat split. Qed.
 
-Example C07_k3_fixed_witness :
-  sidecar_scope (mkMesh None None None false "rootns" true true true) k3_svcs k3_vss "ns1" [] [] = [].
+Example C07_k3_regression :
+  sidecar_scope k3_mesh k3_svcs k3_vss "ns1" [] [] = [].
 Proof. vm_compute. reflexivity. Qed.
